@@ -129,14 +129,14 @@ type Program struct {
 
 // ---- constructors (keep generators short) ---------------------------------------------------
 
-func Int(i int) *Expr            { return &Expr{K: EInt, I: i} }
-func Str(s string) *Expr         { return &Expr{K: EStr, S: s} }
-func Bool(b bool) *Expr          { return &Expr{K: EBool, B: b} }
-func Var(n string) *Expr         { return &Expr{K: EVar, S: n} }
-func Bin(op string, a, b *Expr) *Expr { return &Expr{K: EBin, S: op, A: []*Expr{a, b}} }
-func Not(a *Expr) *Expr          { return &Expr{K: ENot, A: []*Expr{a}} }
+func Int(i int) *Expr                    { return &Expr{K: EInt, I: i} }
+func Str(s string) *Expr                 { return &Expr{K: EStr, S: s} }
+func Bool(b bool) *Expr                  { return &Expr{K: EBool, B: b} }
+func Var(n string) *Expr                 { return &Expr{K: EVar, S: n} }
+func Bin(op string, a, b *Expr) *Expr    { return &Expr{K: EBin, S: op, A: []*Expr{a, b}} }
+func Not(a *Expr) *Expr                  { return &Expr{K: ENot, A: []*Expr{a}} }
 func Call(f string, args ...*Expr) *Expr { return &Expr{K: ECall, S: f, A: args} }
-func Arr(el ...*Expr) *Expr      { return &Expr{K: EArr, A: el} }
+func Arr(el ...*Expr) *Expr              { return &Expr{K: EArr, A: el} }
 func Match(subj *Expr, arms ...Arm) *Expr {
 	return &Expr{K: EMatch, A: []*Expr{subj}, Arms: arms}
 }
@@ -161,12 +161,12 @@ func EchoS(s ...string) *Stmt {
 	}
 	return st
 }
-func Assign(v string, e *Expr) *Stmt         { return &Stmt{K: SAssign, Var: v, E: e} }
-func OpAssign(v, op string, e *Expr) *Stmt   { return &Stmt{K: SOpAssign, Var: v, Op: op, E: e} }
-func IncDec(v, op string) *Stmt              { return &Stmt{K: SIncDec, Var: v, Op: op} }
-func ExprS(e *Expr) *Stmt                    { return &Stmt{K: SExpr, E: e} }
-func Static(v string, e *Expr) *Stmt         { return &Stmt{K: SStatic, Var: v, E: e} }
-func If(c *Expr, then ...*Stmt) *Stmt        { return &Stmt{K: SIf, E: c, Then: then} }
+func Assign(v string, e *Expr) *Stmt       { return &Stmt{K: SAssign, Var: v, E: e} }
+func OpAssign(v, op string, e *Expr) *Stmt { return &Stmt{K: SOpAssign, Var: v, Op: op, E: e} }
+func IncDec(v, op string) *Stmt            { return &Stmt{K: SIncDec, Var: v, Op: op} }
+func ExprS(e *Expr) *Stmt                  { return &Stmt{K: SExpr, E: e} }
+func Static(v string, e *Expr) *Stmt       { return &Stmt{K: SStatic, Var: v, E: e} }
+func If(c *Expr, then ...*Stmt) *Stmt      { return &Stmt{K: SIf, E: c, Then: then} }
 func IfElse(c *Expr, then, els []*Stmt) *Stmt {
 	return &Stmt{K: SIf, E: c, Then: then, Else: els, HasElse: true}
 }
